@@ -1,7 +1,8 @@
 #!/usr/bin/env python3
 """Behaviour-preserving whole-package transforms used to look for rules that are really frozen text:
    T1 mirror every comparison (a < b -> b > a), T2 rename function-local variables, T3 re-print every module with ast.unparse.
-usage: tools/benign.py T1|T2|T3 <outdir>   (writes <outdir>/spatialpandas/...)"""
+T4 no-op insertion, T5 two-armed if inversion, T6 returns through a temporary.
+usage: tools/benign.py T1..T6 <outdir>   (writes <outdir>/spatialpandas/...)"""
 import ast
 import pathlib
 import sys
@@ -134,6 +135,42 @@ class Noop(ast.NodeTransformer):
         return n
 
 
+class InvertIf(ast.NodeTransformer):
+    """T5: `if c: A else: B` -> `if not c: B else: A` for every two-armed if without elif."""
+
+    def visit_If(self, n):
+        self.generic_visit(n)
+        if n.orelse and not (len(n.orelse) == 1 and isinstance(n.orelse[0], ast.If)):
+            n.test, n.body, n.orelse = ast.UnaryOp(op=ast.Not(), operand=n.test), n.orelse, n.body
+        return n
+
+
+class ReturnTemp(ast.NodeTransformer):
+    """T6: `return <expr>` -> `_ret = <expr>; return _ret` (expression returns only; not inside lambdas/generators)."""
+
+    def _rewrite(self, body):
+        out = []
+        for s in body:
+            if isinstance(s, ast.Return) and s.value is not None and not isinstance(s.value, (ast.Name, ast.Constant)):
+                out.append(ast.Assign(targets=[ast.Name(id='_ret', ctx=ast.Store())], value=s.value, lineno=s.lineno))
+                out.append(ast.Return(value=ast.Name(id='_ret', ctx=ast.Load())))
+            else:
+                out.append(s)
+        return out
+
+    def generic_visit(self, node):
+        super().generic_visit(node)
+        for field in ('body', 'orelse', 'finalbody'):
+            b = getattr(node, field, None)
+            if isinstance(b, list) and b and isinstance(b[0], ast.stmt):
+                setattr(node, field, self._rewrite(b))
+        return node
+
+    def visit_FunctionDef(self, n):
+        # numba kernels returning tuples etc. are fine; generators are not affected (return value rarely used)
+        return self.generic_visit(n)
+
+
 def main():
     kind, out = sys.argv[1], pathlib.Path(sys.argv[2])
     root = pathlib.Path('/repo')
@@ -149,6 +186,10 @@ def main():
             tree = Rename().visit(tree)
         elif kind == 'T4':
             tree = Noop().visit(tree)
+        elif kind == 'T5':
+            tree = InvertIf().visit(tree)
+        elif kind == 'T6':
+            tree = ReturnTemp().visit(tree)
         ast.fix_missing_locations(tree)
         q = out / rel
         q.parent.mkdir(parents=True, exist_ok=True)
